@@ -309,6 +309,18 @@ func (t *Transaction) Insert(op *ovsdb.Operation) (ovsdb.OperationResult, *updat
 		return ovsdb.ResultFromError(err), nil
 	}
 
+	// the uuid has to be new: a row that exists already, in the database or
+	// inserted earlier in this transaction, is not replaced
+	exists := t.Cache != nil && t.Cache.Table(op.Table) != nil && t.Cache.Table(op.Table).HasRow(op.UUID)
+	if _, deleted := t.DeletedRows[op.UUID]; !exists && !deleted {
+		existing, err := t.Database.Get(t.DbName, op.Table, op.UUID)
+		exists = err == nil && existing != nil
+	}
+	if exists {
+		err := ovsdb.NewConstraintViolation(fmt.Sprintf("a row with uuid %s exists in table %s", op.UUID, op.Table))
+		return ovsdb.ResultFromError(err), nil
+	}
+
 	update := updates.ModelUpdates{}
 	err := update.AddOperation(t.Model, op.Table, op.UUID, nil, op)
 	if err != nil {
